@@ -5,6 +5,8 @@ import (
 	"os"
 	"strings"
 
+	"golang.org/x/tools/go/ssa"
+
 	"jsverif/internal/ssaeval"
 )
 
@@ -29,6 +31,9 @@ func init() {
 			args = append(args, ssaeval.Obj(p.Name()))
 		}
 		ev := &ssaeval.Eval{MaxDepth: 4, MaxPaths: 200}
+		if want := os.Getenv("JSVERIF_EVAL_CALLS"); want != "" {
+			ev.WantCall = func(fn *ssa.Function) bool { return strings.Contains(fn.String(), want) }
+		}
 		for i, o := range ev.Run(sf, args) {
 			fmt.Printf("--- path %d  incomplete=%q panics=%v\n", i, o.Incomplete, o.Panics)
 			for _, cd := range o.Conds {
